@@ -99,6 +99,19 @@ def bounded(tier, seed):
                 viol.append({"clause": "order_independent", "input": inp, "got": [a, b]})
             if c != d or len({os.path.realpath(x) for x in c}) != len(c) or any(os.path.realpath(x) != x for x in c if not os.path.islink(x)):
                 viol.append({"clause": "no_file_twice_canonical", "input": dict(inp, args=odd), "got": [c, d]})
+            # directory arguments in either order, one of them nested inside a directory the outer walk prunes (a directory
+            # named explicitly is a walk root of its own): same result, nothing lost
+            subdirs = [os.path.join(dp, x) for dp, dn, fn in os.walk(root) for x in dn if not os.path.islink(os.path.join(dp, x))]
+            pruned = [p for p in subdirs if any(seg in ("node_modules", ".venv", "build") for seg in os.path.relpath(p, root).split(os.sep))]
+            for sub in (pruned[:2] + subdirs[:1]):
+                r1 = [str(p) for p in FileResolver(FileResolverConfig(respect_gitignore=False, **cfg)).resolve([root, sub])]
+                r2 = [str(p) for p in FileResolver(FileResolverConfig(respect_gitignore=False, **cfg)).resolve([sub, root])]
+                alone = [str(p) for p in FileResolver(FileResolverConfig(respect_gitignore=False, **cfg)).resolve([sub])]
+                evals += 3
+                if r1 != r2 or any(a not in r1 for a in alone):
+                    viol.append({"clause": "directory_arguments_order_independent", "input": dict(inp, sub=os.path.relpath(sub, root)),
+                                 "got": [[os.path.relpath(x, os.path.realpath(root)) for x in r1], [os.path.relpath(x, os.path.realpath(root)) for x in r2]],
+                                 "want": [os.path.relpath(x, os.path.realpath(root)) for x in alone]})
             # explicit files bypass exclusions and ignore rules (not the size limit) unless force_exclude
             for f in files:
                 one = FileResolver(FileResolverConfig(respect_gitignore=False, files_max_size=cfg.get("files_max_size", 1048576))).resolve([f])
@@ -128,7 +141,7 @@ def bounded(tier, seed):
     return {"evaluations": evals, "distinct_nontrivial": len(distinct), "violations": viol, "samples": samples,
             "rule": "seeded trees (directories/files from fixed pools, nesting <= 3, symlinks to a file and a directory outside the tree and "
                     "to a file inside, file sizes around the limit, a root .flowmarkignore) x 8 settings (incl. multi-segment user exclusions): traversal result == reference "
-                    "walk written from the property; sorted/distinct/absolute; same result for permuted and duplicated arguments, also when files are named again through '..' / relative spellings (no file twice, canonical paths); "
+                    "walk written from the property; sorted/distinct/absolute; same result for permuted and duplicated arguments (also two directory arguments, one nested in a directory the outer walk prunes, in both orders), also when files are named again through '..' / relative spellings (no file twice, canonical paths); "
                     "explicit files bypass exclusions but not the size limit; glob results pass the same filters; distinct = distinct "
                     "reference results",
             "exhaustive": False, "bound": "%d trees" % n}
